@@ -46,7 +46,7 @@ type tEnc struct { // the image of X under a codec's encoder (summarised, see ho
 	X  tv
 	By *types.Func
 }
-type tEach struct {      // ordered element-wise image of a slice
+type tEach struct { // ordered element-wise image of a slice
 	Over   tv
 	Elem   *tSym
 	Body   tv
@@ -65,7 +65,7 @@ type tSliceLit struct {
 	T       types.Type
 	FromAcc bool // append(acc, e): the accumulated prefix plus the listed elements
 	Elems   []tv
-	LenOf tv // make([]T, len(x)): elements unset
+	LenOf   tv // make([]T, len(x)): elements unset
 }
 type tKeys struct {
 	Of     tv
@@ -206,31 +206,31 @@ type sevFrame struct {
 }
 
 type loopCollector struct {
-	ranged  tv // the value ranged over as written (over is its underlying source collection)
-	over    tv
-	elem    *tSym
-	idxObj  types.Object
-	appends map[*tcell][]tv  // outer slice tcell -> appended terms (per iteration)
-	idxSets map[*tcell]tv    // outer slice tcell -> value stored at [loop index]
-	mapSets map[*tcell][2]tv // outer map tcell -> key, val
-	sorted  bool
+	ranged   tv // the value ranged over as written (over is its underlying source collection)
+	over     tv
+	elem     *tSym
+	idxObj   types.Object
+	appends  map[*tcell][]tv  // outer slice tcell -> appended terms (per iteration)
+	idxSets  map[*tcell]tv    // outer slice tcell -> value stored at [loop index]
+	mapSets  map[*tcell][2]tv // outer map tcell -> key, val
+	sorted   bool
 	distinct bool // the visited keys are pairwise distinct (they come from a map)
-	outer   *sevEnv
+	outer    *sevEnv
 }
 
 // sev is one evaluation (one table row under one set of hypotheses).
 type sev struct {
-	p        *Prog
-	decls    map[*types.Func]*declRef
-	hypType  map[string]types.Type // symbol name -> concrete dynamic type
-	assume   map[string]string     // fork decisions
-	refine   map[string]constant.Value
-	encHook  *types.Func
-	decHook  *types.Func
+	p       *Prog
+	decls   map[*types.Func]*declRef
+	hypType map[string]types.Type // symbol name -> concrete dynamic type
+	assume  map[string]string     // fork decisions
+	refine  map[string]constant.Value
+	encHook *types.Func
+	decHook *types.Func
 	// further summarised codec pairs: decoder -> encoder
 	pairs map[*types.Func]*types.Func
 	// function-style codec pairs (enc(x) (J, error) / dec(J) (x, error)): decoder -> encoder
-	fnPairs map[*types.Func]*types.Func
+	fnPairs  map[*types.Func]*types.Func
 	depth    int
 	loops    []*loopCollector
 	notes    []string
@@ -241,7 +241,7 @@ type sev struct {
 	// event trace: calls of functions registered in eventFns and writes to byte/string sinks, in program order
 	events   []sevEvent
 	eventFns map[*types.Func]string
-	sink     string // name of the symbolic text sink whose writes are recorded
+	sink     string          // name of the symbolic text sink whose writes are recorded
 	symCells map[*tcell]bool // cells standing for fields of symbolic inputs (stores into them are not modelled)
 	// functions not to look into (treated as uninterpreted functions of their arguments)
 	opaque func(*types.Func) bool
